@@ -163,7 +163,7 @@ impl Directive {
             Directive::Byte => {
                 if let DirectiveOps::OpList(args) = opts {
                     if args.len() > 1 {
-                        bail!("Too many arguments for {}", self);
+                        bail!("Too many arguments for {}, {}", self, point);
                     }
                     if let Some(Operand::E(expr)) = args.first() {
                         if let Expr::Const(n) = expr {
@@ -227,6 +227,9 @@ impl Directive {
             }
             Directive::Device => {
                 if let DirectiveOps::OpList(values) = opts {
+                    if values.len() > 1 {
+                        bail!("wrong format for .device, expected: {} in {}", opts, point,);
+                    }
                     if let Some(Operand::E(Expr::Ident(value))) = values.first() {
                         if let Some(device) = DEVICES.get(value.as_str()) {
                             if let Some(old_device) = context
